@@ -14,7 +14,7 @@ RULE = ("token strings (v2 with secret length 0,1,38-42,50,60, extra path segmen
         "home / a third cluster; legacy [0-9a-z]{39..60}; opaque and near-miss strings), remote ids (5 characters, "
         "empty, long), run through SaltToken (salt, twice), the federation token provider with 0-4 tokens and a "
         "stub local lookup answering found / 401 / 403 / other statuses / an error without status (prov, provhttp, provnc), keepstore's remote client (keep, keepget; keepseq/keepgetseq: 2-5 steps on one keepstore process with 2-3 remotes and 1-2 "
-        "tokens, locators with one or two +R hints), the token "
+        "tokens, locators with one or two +R hints; kproc: 1-4 GET requests on a keepstore process that has just started, observed at the remote clusters' API endpoints (loopback TLS server) and keep services, Authorization header forms OAuth2/Bearer/other/absent/several values, locators with +R hints of configured and unconfigured remotes, +A, +K@ hints, the empty block), the token "
         "discovery (load) and the legacy saltAuthToken on value-level requests with every placement "
         "(OAuth2/Bearer/Basic header, api_token query parameter, form body, cookie), their combinations, other "
         "parameters (keys and values in canonical and in two alternative percent-encodings), malformed segments and several content types; a case is non-trivial when it carries at "
@@ -322,6 +322,77 @@ def _gen_request(rng, remote, home, placements=None):
     return method, A, items_field(_style(rng, q)), K, T, B, D
 
 
+KHASH = "acbd18db4cc2f85cedef654fccc4a4d8"
+KEMPTY = "d41d8cd98f00b204e9800998ecf8427e"
+KSIG = "0123456789abcdef0123456789abcdef01234567@5f000000"
+
+
+def _gen_kproc(rng, home):
+    """GET requests on a freshly started keepstore: what reaches the remote clusters' API endpoints
+    and keep services. Tokens stay printable (they may travel in a real HTTP header)."""
+    cfg = []
+    while len(cfg) < rng.choice([1, 2, 2, 3]):
+        c = _cluster(rng)
+        if c not in cfg:
+            cfg.append(c)
+    toks = [_token(rng, rng.choice(cfg), home, weird=False) for _ in range(rng.choice([1, 1, 2]))]
+    if rng.random() < 0.75:
+        toks[0] = _v2(rng, rng.choice(cfg), home, weird=False)
+    steps = []
+    for _ in range(rng.choice([1, 2, 2, 3, 4])):
+        t = rng.choice(toks)
+        r = rng.random()
+        if r < 0.72:
+            auths = [rng.choice(["OAuth2", "Bearer"]) + rng.choice([" ", " ", " ", " ", "  ", "\t", " \t "]) + t]
+        elif r < 0.8:
+            # several Authorization header values: only the first one counts
+            auths = [rng.choice(["OAuth2 ", "Bearer "]) + t, "Bearer " + _token(rng, cfg[0], home, weird=False)]
+            if rng.random() < 0.5:
+                auths.reverse()
+        elif r < 0.86:
+            auths = [rng.choice(["bearer ", "Basic ", "Token ", "OAuth2", "Bearer", "OAuth2x ", " Bearer "]) + t]
+        elif r < 0.9:
+            auths = [rng.choice(["", "Bearer ", "OAuth2  "])]
+        else:
+            auths = None
+        hints = ["3"] if rng.random() < 0.9 else []
+        hash_ = KHASH
+        if rng.random() < 0.06:
+            hash_, hints = KEMPTY, [rng.choice(["0", "0", "3"])]
+        r = rng.random()
+        rem = rng.choice(cfg)
+        if r < 0.6:
+            hints.append("R" + rem + "-" + KSIG)
+        elif r < 0.72:
+            other = rng.choice(cfg)
+            hints += ["R" + other + "-" + KSIG, "R" + rem + "-" + KSIG]
+        elif r < 0.8:
+            hints.append("R" + _cluster(rng) + "-" + KSIG)                   # remote not configured
+            if rng.random() < 0.5:
+                hints.insert(len(hints) - 1, "R" + rem + "-" + KSIG)
+        elif r < 0.88:
+            # near misses of the +R hint shape
+            hints.append(rng.choice(["R" + rem + "-", "R" + rem[:4] + "-x" + KSIG, "R" + rem + "x-" + KSIG, "r" + rem + "-" + KSIG,
+                                     "R" + rem + "-x", "R", ""]))
+            if rng.random() < 0.5:
+                hints.append("R" + rem + "-" + KSIG)
+        elif r < 0.93:
+            hints += [rng.choice(["A" + KSIG, "A", "AR" + rem + "-" + KSIG]), "R" + rem + "-" + KSIG]
+        else:
+            pass                                                            # no remote hint at all
+        r = rng.random()
+        if r < 0.10:
+            # +K@<cluster>: a keep proxy of another cluster, of the same cluster, near misses
+            k = rng.choice(["K@" + _cluster(rng), "K@" + _cluster(rng), "K@" + rem, "K@" + rem[:4], "K@" + rem + "x", "k@" + rem])
+            hints.insert(rng.randint(0, len(hints)), k)
+        elif r < 0.16:
+            hints.insert(rng.randint(0, len(hints)), "K@zrmte-bi6l4-00000000000000" + rng.choice("012"))
+        elif r < 0.2:
+            hints.append(rng.choice(["Zfoo", "B" + KSIG, "x"]))
+        steps.append((",".join(hxc(a) for a in auths) if auths is not None else "-") + ":" + "+".join(hxc(x) for x in [hash_] + hints))
+    return "kproc " + ",".join(hxc(c) for c in cfg) + " " + ";".join(steps)
+
+
 def generate(rng, tier):
     scale = 1 if tier == "quick" else 25
     cases = []
@@ -408,6 +479,8 @@ def generate(rng, tier):
             else:
                 steps.append(hxc(rng.choice(remotes)) + ":" + hxc(t))
         cases.append(("keepgetseq " if getseq else "keepseq ") + ";".join(steps))
+    for _ in range(140 * scale):
+        cases.append(_gen_kproc(rng, home))
     rng.shuffle(cases)
     return cases
 
@@ -543,6 +616,8 @@ def compare(case, impl, model):
             if i != m + "@" + last:
                 return False
         return True
+    if op == "kproc":
+        return impl.split(" X=")[0] == model
     if op == "keepget":
         if model.startswith("refused"):
             return impl == model
@@ -811,11 +886,110 @@ def _oracle_legacy(case, impl):
     return " | ".join(f"[{k}] {m}" for k, m in seen)
 
 
+RE_KEEP_AUTH = re.compile(r"\A(OAuth2|Bearer)[\t\n\f\r ]+([^\n]*)")
+RE_RHINT = re.compile(r"\AR(.{5})-.+\Z", re.S)
+
+
+def _kproc_steps(case):
+    """[(token or '', [remote ids of well-formed +R hints], hints)] per step of a kproc case"""
+    out = []
+    for st in case.split(" ")[2].split(";"):
+        a, l = st.split(":")
+        auths = None if a == "-" else [unhx(x) for x in a.split(",")]
+        parts = [unhx(x) for x in l.split("+")]
+        tok = ""
+        if auths:
+            m = RE_KEEP_AUTH.match(auths[0])
+            if m:
+                tok = m.group(2)
+        out.append((tok, [RE_RHINT.match(h).group(1) for h in parts[1:] if RE_RHINT.match(h) and not h.startswith("A")], parts[1:]))
+    return out
+
+
+def _oracle_kproc(case, impl):
+    """Property text on what a keepstore process sends to other clusters: a user's token reaches
+    remote cluster R only salted for R, whatever endpoint of R it goes to and whichever request of
+    the process's life it is; nothing else derived from the caller's credentials leaves at all."""
+    f = case.split(" ")
+    cfg = [unhx(x) for x in f[1].split(",")] if f[1] != "-" else []
+    steps = _kproc_steps(case)
+    main = impl.split(" C=")[0]
+    outs = main.split(";")
+    if " C=" not in impl or len(outs) != len(steps):
+        return "driver could not observe the process: " + impl[:200]
+    _, iv = _kv("x " + impl.split(" ", 1)[1]) if " " in impl else ("", {})
+    held = unhxlist(iv.get("C", "-"))
+    all_tokens = [t for t, _, _ in steps if t]
+    late = None
+    for n, ((t, rhints, hints), o) in enumerate(zip(steps, outs)):
+        status, _, evs = o.partition("/")
+        c = _classify(t)
+        saltable = c[0] == "v2" and len(c[2]) != 40
+        sent_block = False
+        for ev in ([] if evs == "-" else evs.split("|")):
+            p = ev.split("@")
+            kind = p[0]
+            if kind in ("d", "s", "o"):
+                # the remote cluster's API endpoint: service discovery needs no user credential
+                if p[1].startswith("unknown"):
+                    return f"request {n + 1}: an API request went to an address of no configured remote"
+                auths = unhxlist(p[-1])
+                for a in auths:
+                    for ut in all_tokens:
+                        cu = _classify(ut)
+                        sec = _secret_of(ut) or (ut if cu[0] == "legacy" else None)
+                        if sec and any(sec in v for v in _views(a)):
+                            return (f"request {n + 1}: a request to the API endpoint of remote {unhx(p[1])!r} carries a caller's "
+                                    f"unsalted token: {a!r}")
+                        if cu[0] == "v2" and ut and ut in a:
+                            return f"request {n + 1}: a request to the API endpoint of remote {unhx(p[1])!r} carries a caller's token"
+                continue
+            if kind != "b":
+                return "driver could not observe the request: " + ev[:200]
+            sent_block = True
+            dest, auths = p[1], unhxlist(p[3])
+            if c[0] != "v2":
+                return f"request {n + 1}: a block request was sent with a token that cannot be salted"
+            if dest.startswith("r."):
+                r = unhx(dest[2:])
+                if r not in rhints or r not in cfg:
+                    return f"request {n + 1}: a block request went to remote {r!r} that the locator does not name"
+                want = _salted(c[1], c[2], r) if saltable else t
+                if auths != ["OAuth2 " + want]:
+                    return (f"request {n + 1}: remote {r!r} received {auths!r}, expected the token salted for {r!r}: "
+                            f"['OAuth2 {want}']")
+            else:
+                host = unhx(dest[2:])
+                m = re.match(r"\Ahttps://keep\.(.{5})\.arvadosapi\.com\Z", host)
+                if not m:
+                    return f"request {n + 1}: a block request carrying the caller's token went to {host!r}"
+                x = m.group(1)
+                want = _salted(c[1], c[2], x) if saltable else t
+                if auths != ["OAuth2 " + want] or (not saltable and not c[1].startswith(x)):
+                    late = late or (f"request {n + 1}: a block request to cluster {x!r} ({host}, named by a +K@{x} hint) carries "
+                                    f"{auths!r}, which is not the caller's token salted for {x!r}")
+        if not sent_block and status not in ("200",) and saltable and rhints and all(r in cfg for r in rhints):
+            return f"request {n + 1}: a saltable v2 token was refused (status {status})"
+    for h in held:
+        for ut in all_tokens:
+            sec = _secret_of(ut) or (ut if _classify(ut)[0] == "legacy" else None)
+            if sec and sec in h:
+                return "a cached per-remote keep client holds a caller's unsalted token"
+    dump = unhx(iv.get("X", "-"))
+    for ut in all_tokens:
+        s = _secret_of(ut)
+        if s and _leaks(s, dump):
+            return "the unsalted secret of a caller's token occurs in what the process sent to a remote cluster"
+    return late
+
+
 def oracle(case, impl):
     f = case.split(" ")
     op = f[0]
     if impl.startswith("CRASH"):
         return "driver crashed: " + impl[:200]
+    if op == "kproc":
+        return _oracle_kproc(case, impl)
     if op == "salt":
         return _oracle_salt(unhx(f[1]), unhx(f[2]), impl)
     if op == "keep":
@@ -927,8 +1101,12 @@ def oracle(case, impl):
 # ----------------------------------------------------------------------------- findings
 
 def finding_of(case, impl, why):
-    """No finding of C19 is in status 'known' (F7, F19a, F19b, F19c are fixed in /repo), so no
-    failure is ever mapped to a known-finding id."""
+    """F7, F19a, F19b, F19c are fixed in /repo. F19d (known): a +K@<cluster> hint in a locator that
+    keepstore proxies to remote R makes keepclient send the token salted for R to
+    keep.<cluster>.arvadosapi.com. Only that witness shape is mapped: the oracle reports it last,
+    i.e. only when nothing else is wrong with the case."""
+    if case.startswith("kproc ") and why and "named by a +K@" in why and "which is not the caller's token salted for" in why:
+        return "F19d"
     return None
 
 
@@ -941,7 +1119,7 @@ def nontrivial_key(case, impl):
         return case if f[1] != "-" else None
     if op in ("keep", "keepget"):
         return case if f[2] != "-" else None
-    if op in ("keepseq", "keepgetseq"):
+    if op in ("keepseq", "keepgetseq", "kproc"):
         return case
     if op in ("prov", "provhttp", "fednew", "provseq", "provhttpseq"):
         return case if f[2] != "-" else None
